@@ -5,6 +5,7 @@ import (
 	"go/ast"
 	"go/token"
 	"go/types"
+	"os"
 	"sort"
 	"strings"
 
@@ -629,7 +630,20 @@ func ruleR17_1(w *World, r *Report) {
 				ctor = s
 			}
 		}
+		if os.Getenv("GSVERIF_DEBUG") != "" {
+			for _, s := range rows[fn.key()] {
+				fmt.Fprintf(os.Stderr, "R17.1 prefix row: toks=%q ctor=%s callee=%v\n", s.toks, s.ctor, s.callee != nil)
+			}
+		}
+		iterOK, iterWhy := false, ""
+		if down != nil && self == nil && ctor != nil && ctor.ctor == "Not" && len(ctor.toks) == 0 {
+			iterOK, iterWhy = iteratedPrefix(fn, down, ctor)
+		}
 		switch {
+		case iterOK:
+			r.OK(id, keyP, w.InstrPos(ctor.call), fmt.Sprintf("%s: counts the '^' it reads, parses the operand at %s and applies Not as many times: %s", fn.Name(), levelOf(down.callee), iterWhy))
+		case down != nil && self == nil && ctor != nil && iterWhy != "":
+			r.Bad(id, keyP, w.Pos(fn.fn.Pos()), fn.Name()+" does not have the shape ['^' <operand> -> Not] | <atom>, nor its iterated form: "+iterWhy)
 		case down == nil || self == nil || ctor == nil:
 			r.Bad(id, keyP, w.Pos(fn.fn.Pos()), fn.Name()+" does not have the shape ['^' <operand> -> Not] | <atom>")
 		case len(problems) > 0:
@@ -1420,4 +1434,131 @@ func ruleR17_6(w *World, r *Report) {
 	if n == 0 {
 		r.Unk(id, "variable sites", "-", "no parser function builds Var from the current token")
 	}
+}
+
+// iteratedPrefix recognises the iterative form of the prefix level: a first loop counts the '^' tokens it passes
+// (counter 0 before the loop, +1 in every iteration, the increment behind a positive test of "^" made in that
+// iteration), the operand is parsed once after that loop, and a second loop wraps it into Not once per unit of the
+// counter (formula and counter are the loop's two variables, the counter goes down by 1 with every Not and the loop
+// runs while it is > 0); the function returns that formula or no formula at all.
+func iteratedPrefix(n *pnode, down, ctor *parserSite) (bool, string) {
+	fn := n.fn
+	if len(ctor.call.Call.Args) != 1 {
+		return false, "Not is applied to more than one value"
+	}
+	arg := ctor.call.Call.Args[0]
+	phiF, ok := arg.(*ssa.Phi)
+	if !ok || len(phiF.Edges) != 2 {
+		return false, "Not is not applied to the formula carried by a loop"
+	}
+	h2 := phiF.Block()
+	body2 := loopBlocks(fn, h2)
+	if len(body2) != 2 || !body2[ctor.call.Block()] || ctor.call.Block() == h2 {
+		return false, "the loop applying Not is not a loop of one step"
+	}
+	isDown := func(v ssa.Value) bool {
+		ex, ok := v.(*ssa.Extract)
+		return ok && ex.Index == 0 && ex.Tuple == ssa.Value(down.call)
+	}
+	var fromIn, fromBack ssa.Value
+	inIdx := -1
+	for i, e := range phiF.Edges {
+		if body2[h2.Preds[i]] {
+			fromBack = e
+		} else {
+			fromIn, inIdx = e, i
+		}
+	}
+	if fromIn == nil || !isDown(fromIn) || fromBack != ssa.Value(ctor.call) {
+		return false, "the formula of the loop is not the operand wrapped into Not once per iteration"
+	}
+	iff, ok := h2.Instrs[len(h2.Instrs)-1].(*ssa.If)
+	if !ok || !body2[h2.Succs[0]] || body2[h2.Succs[1]] {
+		return false, "the loop applying Not has no test of its own"
+	}
+	var phiM *ssa.Phi
+	if bo, ok := iff.Cond.(*ssa.BinOp); ok {
+		if k, isK := constInt(bo.Y); isK && k == 0 && bo.Op == token.GTR {
+			phiM, _ = bo.X.(*ssa.Phi)
+		} else if k, isK := constInt(bo.X); isK && k == 0 && bo.Op == token.LSS {
+			phiM, _ = bo.Y.(*ssa.Phi)
+		} else if k, isK := constInt(bo.Y); isK && k == 0 && bo.Op == token.NEQ {
+			phiM, _ = bo.X.(*ssa.Phi)
+		}
+	}
+	if phiM == nil || phiM.Block() != h2 || len(phiM.Edges) != 2 {
+		return false, "the loop applying Not does not run while a counter is above 0"
+	}
+	dec, ok := phiM.Edges[1-inIdx].(*ssa.BinOp)
+	if !ok || dec.Op != token.SUB || dec.X != ssa.Value(phiM) || dec.Block() != ctor.call.Block() {
+		return false, "the counter does not go down by 1 with every Not"
+	}
+	if k, isK := constInt(dec.Y); !isK || k != 1 {
+		return false, "the counter does not go down by 1 with every Not"
+	}
+	phiN, ok := phiM.Edges[inIdx].(*ssa.Phi)
+	if !ok || len(phiN.Edges) != 2 {
+		return false, "the counter is not the one of a loop over the '^' tokens"
+	}
+	h1 := phiN.Block()
+	body1 := loopBlocks(fn, h1)
+	if len(body1) == 0 || body1[down.call.Block()] || !h1.Dominates(down.call.Block()) {
+		return false, "the operand is not parsed after the loop over the '^' tokens"
+	}
+	var inc *ssa.BinOp
+	zero := false
+	for i, e := range phiN.Edges {
+		if body1[h1.Preds[i]] {
+			inc, _ = e.(*ssa.BinOp)
+		} else if k, isK := constInt(e); isK && k == 0 {
+			zero = true
+		}
+	}
+	if !zero || inc == nil || inc.Op != token.ADD || inc.X != ssa.Value(phiN) || !body1[inc.Block()] {
+		return false, "the counter does not start at 0 and go up by 1 per iteration"
+	}
+	if k, isK := constInt(inc.Y); !isK || k != 1 {
+		return false, "the counter does not go up by 1 per iteration"
+	}
+	for _, h := range loopHeaders(fn) {
+		if h != h1 && body1[h] && loopBlocks(fn, h)[inc.Block()] {
+			return false, "the counter goes up in an inner loop"
+		}
+	}
+	counted := false
+	for _, ec := range dominatingConds(inc.Block()) {
+		c, pol := ec.Cond, ec.True
+		for {
+			if u, ok := c.(*ssa.UnOp); ok && u.Op == token.NOT {
+				c, pol = u.X, !pol
+				continue
+			}
+			break
+		}
+		if tok, eq, ok := tokenTest(n, c); ok && tok == "^" && eq == pol && body1[ec.If.Block()] {
+			counted = true
+		}
+	}
+	if !counted {
+		return false, "the counter goes up in an iteration that has not seen the token '^'"
+	}
+	// what the function returns: that formula, or none
+	some := false
+	for _, b := range fn.Blocks {
+		ret, ok := b.Instrs[len(b.Instrs)-1].(*ssa.Return)
+		if !ok || len(ret.Results) == 0 {
+			continue
+		}
+		switch {
+		case ret.Results[0] == ssa.Value(phiF) && !body2[b]:
+			some = true
+		case isNilConst(ret.Results[0]):
+		default:
+			return false, "a formula other than the wrapped operand is returned at " + b.String()
+		}
+	}
+	if !some {
+		return false, "the wrapped operand is never returned"
+	}
+	return true, "counter " + phiN.Comment + " (0, +1 behind the test of '^'), Not applied while the counter is > 0 (-1 per application)"
 }
